@@ -166,15 +166,25 @@ def cases(draw, tier):
     ir["shared_params"] = []
     if draw(st.booleans()):
         for i in range(draw(st.integers(1, 2))):
-            sch = {"k": "ref", "name": draw(st.sampled_from(refable))} if refable and draw(st.booleans()) else \
-                {"k": draw(st.sampled_from(["str", "int", "date"])), "nullable": draw(st.booleans())}
+            which = draw(st.integers(0, 2))
+            if which == 0 and refable:
+                sch = {"k": "ref", "name": draw(st.sampled_from(refable))}
+            elif which == 1:
+                # an inline enum that lists null: the generator rewrites such a schema object when it first meets it
+                sch = {"k": "enum", "base": "str", "values": ["asc", "desc"], "null": True} if draw(st.booleans()) else \
+                    {"k": "enum", "base": "int", "values": [1, 2], "null": True}
+            else:
+                sch = {"k": draw(st.sampled_from(["str", "int", "date"])), "nullable": draw(st.booleans())}
             ir["shared_params"].append({"name": f"zzShared{i}", "in": "query", "required": False, "schema": sch})
     objs = [n for n, sc in ir["schemas"] if sc["k"] == "object"]
     ir["shared_response"] = {"k": "ref", "name": draw(st.sampled_from(objs)), "nullable": draw(st.booleans())} if objs and draw(st.booleans()) else None
     ir["shared_level"] = draw(st.sampled_from(["components", "path_item"]))
     bits = draw(st.lists(st.integers(0, 11), min_size=4, max_size=24))
+    if draw(st.integers(0, 3)) == 0:
+        # text outside the Basic Multilingual Plane: json.dump writes it as an escaped surrogate pair, which a YAML loader rejects
+        ir["title"] = "Verif \U0001F680 API"
     return {"ir": ir, "bits": bits, "yaml": draw(st.integers(0, 2)) == 0, "url": draw(st.integers(0, 3)) == 0,
-            "cfg": {"literal_enums": draw(st.booleans())}}
+            "ctype_params": draw(st.booleans()), "cfg": {"literal_enums": draw(st.booleans())}}
 
 
 def strategy(tier):
@@ -189,6 +199,15 @@ _server = None
 class _Quiet(http.server.SimpleHTTPRequestHandler):
     def log_message(self, *a):
         pass
+
+    def guess_type(self, path):
+        # files named *.charset.json / *.charset.yaml are served with a parameter after the media type, as most servers do
+        p = str(path)
+        if p.endswith(".charset.json"):
+            return "application/json; charset=utf-8"
+        if p.endswith(".charset.yaml"):
+            return "application/yaml; charset=utf-8"
+        return super().guess_type(path)
 
 
 def server_url(path: str) -> str:
@@ -240,7 +259,11 @@ def run(case, ctx):
         snap_a = sut.snapshot(a.out)
     finally:
         env.rm(os.path.dirname(a.out))
-    src = sut.write_doc(alt_doc, as_yaml=bool(case.get("yaml")))
+    suffix = None
+    if case.get("url") and case.get("ctype_params"):
+        suffix = ".charset.yaml" if case.get("yaml") else ".charset.json"
+        ctx.label("url_content_type_with_parameter")
+    src = sut.write_doc(alt_doc, as_yaml=bool(case.get("yaml")), suffix=suffix)
     if case.get("yaml"):
         # keep only documents the YAML round trip preserves under the harness' own loader
         from ruamel.yaml import YAML
